@@ -140,7 +140,10 @@ def _call(ex, ev, model):
                 kw["column_names"] = list(ev["columns"])
                 if ev["location"] is not None:
                     kw["location"] = VL[ev["location"]]
-            ex.add_variable(ev["state"], ev["slot"], ev["name"], _frame(model.mesh_for(ev["slot"])["id"], model, ev["state"]), **kw)
+            frame = _frame(model.mesh_for(ev["slot"])["id"], model, ev["state"])
+            if ev.get("subset") == "elset":
+                frame = frame[frame.index.get_level_values("element_id").isin(model.mesh_for(ev["slot"])["elset"])]
+            ex.add_variable(ev["state"], ev["slot"], ev["name"], frame, **kw)
     except Exception as e:          # the exporter's failure is an outcome, not a crash of the check
         return e
     return None
@@ -276,7 +279,7 @@ def _import(fn, slot, state=None, variables=(), node_set=None, element_set=None,
             if coordinates:
                 stage = "join_coordinates"
                 o = o.join_coordinates()
-            for name, _, cols in variables:
+            for name, _, cols in [v[:3] for v in variables]:
                 stage = "join_variable"
                 o = o.join_variable(name, column_names=None if name in KNOWN_NAMES else list(cols))
             stage = "to_frame"
@@ -335,7 +338,7 @@ def _compare_mesh(tab, m, variables, slot, state=None):
                                                           expected=[r[j] for r in values])))
             break
     j = ncoord
-    for name, loc, vcols in variables:
+    for name, loc, vcols in [v[:3] for v in variables]:
         for c in vcols:
             if not _col_equal(tab["values"], values, j, j):
                 g, e = [r[j] for r in tab["values"]], [r[j] for r in values]
